@@ -278,8 +278,12 @@ def main():
                 ctx.case(cid, {"mesh": mname, "k": k, "orders": list(orders), "residuals": floors})
                 for nm in ("curlH+ikE", "divE"):
                     seq = [f[nm]["extrapolated"] for f in floors]
-                    if not (seq[-1] <= max(seq[0] / 30, 1e-6)):
-                        ctx.violation("pde:maxwell:%s:no_convergence" % nm, "%s: h-extrapolated residual by regular order %s: %s" % (cid, list(orders), ["%.2e" % s_ for s_ in seq]), cid)
+                    # the Richardson-extrapolated value still carries the O(h^4) stencil error; its size is measured on the two
+                    # identities that hold exactly for the discrete sums
+                    fd_level = max(floors[-1]["curlE-ikH"]["extrapolated"], floors[-1]["divH"]["extrapolated"], 1e-7)
+                    if not (seq[-1] <= max(seq[0] / 30, 20 * fd_level)):
+                        ctx.violation("pde:maxwell:%s:no_convergence" % nm, "%s: h-extrapolated residual by regular order %s: %s (stencil error level %.1e)"
+                                      % (cid, list(orders), ["%.2e" % s_ for s_ in seq], fd_level), cid)
         ctx.lap("pde")
 
         # ---------------------------------------------------------------- (c) far-field limit, (d) translation phase
